@@ -458,6 +458,8 @@ class ControlledExecutor:
         self.queue = []
         self._threads = []
         self.done = 0
+        self.errors = []
+        self.propagate = False
 
         class _Q:
             def __init__(s, outer):
@@ -474,7 +476,19 @@ class ControlledExecutor:
     def run(self, i=0):
         fn, a, kw = self.queue.pop(i)
         self.done += 1
-        return fn(*a, **kw)
+        try:
+            return fn(*a, **kw)
+        except Exception as e:  # noqa: BLE001
+            # the real pool keeps an exception raised by a call in a Future nobody reads: the call just ends there.  Recorded for
+            # the checks that judge execution calls (`errors`); re-raised where a check asked for it (`propagate`)
+            import traceback
+
+            tb = traceback.extract_tb(e.__traceback__)
+            where = [f.name for f in tb if "/flumine/" in f.filename]
+            self.errors.append({"call": fn.__name__, "exc": type(e).__name__, "where": where[-1] if where else None, "msg": str(e)[:200]})
+            if self.propagate:
+                raise
+            return None
 
     def run_all(self):
         n = 0
